@@ -66,6 +66,7 @@ def run(ctx: Ctx):
     uni_i = "i" in uniform_keys(tsp)
     tf = tuple_funcs(ctx.repo)
     n_forward, n_hits = 0, 0
+    n_views = 0
     used = set()
     roots = []
     for name, mi in sorted(ctx.repo.modules.items()):
@@ -107,6 +108,7 @@ def run(ctx: Ctx):
             ctx.fn(fi)
             n_forward += 1
             rets = [it.sym(v) for _, v in fr.returns]
+            n_views += reinterpreting_views(ctx, lab, fi, rets)
             per = {}
             for v in rets:
                 for h in ba.hits(v):
@@ -153,6 +155,9 @@ def run(ctx: Ctx):
             if not bad:
                 ctx.ob("C14.a", lab, True, fi.loc, f"{len(per)} batch-global op(s), all justified" if per else "no batch-global op reaches the output")
     ctx.extra["forwards_analysed"] = n_forward
+    ctx.extra["axis_order_views_checked"] = n_views
+    if n_views < 1:
+        raise AnalysisError("no view(size(t, i), size(t, j), ...) site found (PointerNetworkPolicy.forward has one)")
     ctx.extra["batch_global_ops_seen"] = n_hits
     ctx.extra["exceptions_used"] = sorted(map(list, used))
     ctx.sample({"forwards_analysed": n_forward, "hits": n_hits, "td_i_row_uniform": uni_i})
@@ -170,6 +175,81 @@ def run(ctx: Ctx):
     t = vg.mk("param", "x")
     if len(ba.hits(vg.mk("/", t, vg.mk("meth", t, "std")))) != 1 or ba.hits(vg.mk("meth", t, "mean", vg.const(-1))):
         raise AnalysisError("positive control of the non-interference engine failed")
+
+
+def _lead_order(n, depth=0):
+    """Order of the two leading axes of a tensor value, as (size of axis 0, size of axis 1) with sizes named (tensor id, axis):
+    ('nat', t) -- the natural order of tensor t;  ('swap', t) -- t with its two leading axes exchanged;
+    ('flat', order) -- both leading axes merged into one, rows enumerated in `order`.  None when not understood."""
+    if depth > 40 or not isinstance(n, vg.S):
+        return None
+    d = depth + 1
+    if n.op == "cell0" or n.op == "param":
+        return ("nat", nf.strip(n).id)
+    if n.op == "meth":
+        m = n.args[1]
+        if m in ("contiguous", "clone", "float", "to", "detach", "double", "half", "type_as"):
+            return _lead_order(n.args[0], d)
+        if m in ("transpose", "swapaxes") and len(n.args) == 4 and {vg.is_const(n.args[2], 0) and 0, vg.is_const(n.args[3], 1) and 1} == {0, 1} \
+                and vg.is_const(n.args[2], 0) and vg.is_const(n.args[3], 1) or (m in ("transpose", "swapaxes") and len(n.args) == 4 and vg.is_const(n.args[2], 1) and vg.is_const(n.args[3], 0)):
+            o = _lead_order(n.args[0], d)
+            if o is None:
+                return None
+            return {"nat": ("swap", o[1]), "swap": ("nat", o[1])}.get(o[0])
+        if m in ("view", "reshape") and len(n.args) == 4 and vg.is_const(n.args[2], -1):
+            o = _lead_order(n.args[0], d)
+            return ("flat", o) if o is not None and o[0] in ("nat", "swap") else None
+        if m == "flatten" and len(n.args) == 4 and vg.is_const(n.args[2], 0) and vg.is_const(n.args[3], 1):
+            o = _lead_order(n.args[0], d)
+            return ("flat", o) if o is not None and o[0] in ("nat", "swap") else None
+        if m in ("matmul", "mm") and len(n.args) == 3:
+            return _lead_order(n.args[0], d)
+    fn = nf._fn(n)
+    if fn in ("torch.mm", "torch.matmul") and len(n.args) >= 3:
+        w = n.args[2]
+        if isinstance(w, vg.S) and w.op in ("selfattr",) or (isinstance(w, vg.S) and not vg.cells_of(w) and not vg.params_of(w)):
+            return _lead_order(n.args[1], d)
+    if n.op == "@" and isinstance(n.args[1], vg.S) and not vg.cells_of(n.args[1]) and not vg.params_of(n.args[1]):
+        return _lead_order(n.args[0], d)
+    return None
+
+
+def reinterpreting_views(ctx: Ctx, lab: str, fi, rets) -> int:
+    """C14.f `x.view(s0, s1, ...)` reads the memory of x in its existing order.  When the two leading sizes are the sizes of the
+    two leading axes of an instance tensor t (batch, nodes), the operand's rows must be enumerated in exactly that order:
+    viewing a [B, N, E] value as (N, B, E) -- or a flattened [B*N, E] value as (N, B, E) -- interleaves the rows of different
+    instances for B > 1 (and is the identity for B = 1).  Axes are exchanged by transpose / permute, not by view."""
+    n_sites = 0
+    seen = set()
+    for root in rets:
+        if not isinstance(root, vg.S):
+            continue
+        for n in vg.walk(root):
+            if n.id in seen or not (n.op == "meth" and n.args[1] in ("view", "reshape") and len(n.args) >= 5):
+                continue
+            seen.add(n.id)
+            s0, s1 = nf.dim_of(n.args[2]), nf.dim_of(n.args[3])
+            if s0 is None or s1 is None or not isinstance(s0[1], int) or not isinstance(s1[1], int):
+                continue
+            t0, t1 = nf.strip(s0[0]), nf.strip(s1[0])
+            if t0 is not t1 or {s0[1], s1[1]} != {0, 1}:
+                continue
+            want = "nat" if (s0[1], s1[1]) == (0, 1) else "swap"
+            o = _lead_order(n.args[0])
+            if o is None:
+                continue
+            have = o[1] if o[0] == "flat" else o
+            if have[1] != t0.id:
+                continue
+            n_sites += 1
+            ok = have[0] == want
+            site = vg.site_of(n)
+            where = f"{site[0]}:{site[1]}" if site else fi.loc
+            ctx.ob("C14.f", f"{lab}:view-keeps-row-order@{vg.show(n.args[0], 2)[:40]}", ok, where,
+                   f"view({vg.show(n.args[2], 2)}, {vg.show(n.args[3], 2)}, ...) of a value whose rows run in " + ("(axis 0, axis 1)" if have[0] == "nat" else "(axis 1, axis 0)") +
+                   f" order of {vg.show(t0, 2)}: the requested order is " + ("the same" if ok else "the OTHER one -- rows of different instances are interleaved for B > 1"),
+                   construct=f"{lab}:reinterpreting-view")
+    return n_sites
 
 
 def _feeds_module(root, node) -> bool:
